@@ -32,7 +32,39 @@ example : getBitmap (formatted 10) = (.ok (bufOf (formatted 10).raw (hdrBm (form
 /-- the hypotheses of `prodos_delete_refines_name` are met by the formatted volume and the name `a.b` -/
 example : ∃ res d1 d4 v v4, delete (str "a.b") repaired (formatted 10) = (res, d1) ∧ d1.flush = (.ok (), d4) ∧ SInv d4 ∧
     Read.ProdosT.read (formatted 10).raw = .ok v ∧ Read.ProdosT.read d4.raw = .ok v4 ∧
-    stepOk prodosParams v (.delete (upper (str "a.b"))) (match res with | .ok _ => true | .error _ => false) v4 = true :=
+    stepOk prodosParams v (.delete (upper (str "a.b"))) (match res with | .ok _ => true | .error _ => false) v4 = true ∧
+    v4.label = v.label :=
   prodos_delete_refines_name formatted10_sinv (str "a.b") (by decide) (by decide) (by decide)
+
+/-- a history of volume-directory operations addressed by simple names on the formatted volume: the hypotheses of
+`prodos_history_refines` and of its corollaries are satisfiable -/
+def exOps : List VOp :=
+  [.lock (str "a"), .rename (str "a") (str "b"), .delete (str "b"), .unlock (str "c.d"), .retype (str "c.d") (some 4) (some 0),
+   .retype (str "c.d") none (some 0)]
+
+theorem exOps_root : ∀ op ∈ exOps, op.Root (volName (hdrOf (formatted 10).raw)) := by
+  intro op hop
+  simp only [exOps, List.mem_cons, List.not_mem_nil, or_false] at hop
+  rcases hop with rfl | rfl | rfl | rfl | rfl | rfl <;>
+    exact ⟨rootPath_simple _ _ (by decide) (by decide) (by decide), by
+      intro p t a h
+      first
+        | (injection h with _ h2 _; injection h2 with h2; omega)
+        | cases h⟩
+
+example : validFrom prodosParams (volOf (formatted 10).raw) (trace (volName (hdrOf (formatted 10).raw)) (formatted 10) exOps) ∧
+    SInv (finalDisk (formatted 10) exOps) :=
+  ⟨(prodos_history_refines exOps _ formatted10_sinv exOps_root).1, (prodos_history_refines exOps _ formatted10_sinv exOps_root).2.1⟩
+
+example : Inv (finalDisk (formatted 10) exOps).raw := (prodos_states_well_formed exOps _ formatted10_sinv exOps_root).2
+
+example (q : Bytes) : q ∈ (volOf (finalDisk (formatted 10) exOps).raw).paths ↔
+    q ∈ foldPaths (volOf (formatted 10).raw).paths (trace (volName (hdrOf (formatted 10).raw)) (formatted 10) exOps) :=
+  (prodos_listing_is_history_fold exOps _ formatted10_sinv exOps_root q).1
+
+example : Refines (formatted 10) (Fs.Prodos.rename (str "a") (str "b") (formatted 10)) (.rename (upper (upper (str "a"))) (upper (str "b"))) :=
+  prodos_rename_refines formatted10_sinv (str "a") (upper (str "a")) (str "b")
+    (normalizePath_simple _ _ (by decide) (by decide) (by decide) (volName_len _)) (by decide)
+    (notVol_simple _ _ (by decide) (by decide))
 
 end A2Verif.FsProdos
